@@ -209,7 +209,7 @@ CasesA(c) ==
               kk == q + 11 * c
           IN [tag |-> "A", cutX |-> 0,
               cfg |-> [stream |-> (kk % 2 = 1), maxResp |-> Limits[((kk \div 2) % 4) + 1], noNormHdr |-> CfgReq(c).noNormHdr,
-                       noNormPath |-> CfgReq(c).noNormPath, proxy |-> CfgReq(c).proxy, readSize |-> ReadSizes[(kk % 3) + 1]],
+                       noNormPath |-> CfgReq(c).noNormPath, proxy |-> CfgReq(c).proxy, readSize |-> ReadSizes[(kk % 3) + 1], reuseResp |-> TRUE],
               xs |-> [x \in 1 .. len |-> Exchange(ps[j + x - 1], ScriptFor(ps[j + x - 1], 7 * (j + x) + c), x)]]]
 
 \* ---- set B: every script starts one sequence per stream mode x limit mode
@@ -225,7 +225,7 @@ CasesB ==
            c == q % 8
        IN [tag |-> "B", cutX |-> 0,
            cfg |-> [stream |-> idx[q][2], maxResp |-> LimitFor(Scripts[j], idx[q][3]), noNormHdr |-> CfgReq(c).noNormHdr,
-                    noNormPath |-> CfgReq(c).noNormPath, proxy |-> CfgReq(c).proxy, readSize |-> ReadSizes[(q % 3) + 1]],
+                    noNormPath |-> CfgReq(c).noNormPath, proxy |-> CfgReq(c).proxy, readSize |-> ReadSizes[(q % 3) + 1], reuseResp |-> TRUE],
            xs |-> [x \in 1 .. len |->
                      LET s == Scripts[((j + (x - 1) * (1 + (q % 5)) - 1) % NS) + 1] IN Exchange(ProgFor(s, q + x), s, x)]]]
 
@@ -237,14 +237,14 @@ CasesC ==
        LET s == Scripts[idx[q][1]] IN
        [tag |-> "C", cutX |-> 1,
         cfg |-> [stream |-> idx[q][2], maxResp |-> 0, noNormHdr |-> (q % 4 = 1), noNormPath |-> FALSE, proxy |-> FALSE,
-                 readSize |-> ReadSizes[(q % 3) + 1]],
+                 readSize |-> ReadSizes[(q % 3) + 1], reuseResp |-> TRUE],
         xs |-> <<Exchange(ProgFor(s, q), s, 1), Exchange(SimpleProgs[1], ProbeScript, 2)>>]]
 
 RECURSIVE Flatten(_)
 Flatten(ss) == IF ss = << >> THEN << >> ELSE Head(ss) \o Flatten(Tail(ss))
 
 \* ---- set K: the minimal case of every known finding (known/C11.json), in both body modes
-KCfg(st, px) == [stream |-> st, maxResp |-> 0, noNormHdr |-> FALSE, noNormPath |-> FALSE, proxy |-> px, readSize |-> 0]
+KCfg(st, px) == [stream |-> st, maxResp |-> 0, noNormHdr |-> FALSE, noNormPath |-> FALSE, proxy |-> px, readSize |-> 0, reuseResp |-> TRUE]
 CloseScript(token) == [ProbeScript EXCEPT !.bodyLen = 17, !.connClose = token]
 FragProg == LET base == [SimpleProgs[1] EXCEPT !.frag = "frag"] IN [base EXCEPT !.url = UrlOf(base)]
 QuoteProg == Simple("POST", MultipartBody(<<KV("a\"b", "q")>>, << >>))
@@ -259,13 +259,20 @@ CasesK ==
            xs |-> <<Exchange(SimpleProgs[1], CloseScript("foo, close"), 1), Exchange(SimpleProgs[1], ProbeScript, 2)>>],
           [tag |-> "K-proxy-fragment", cutX |-> 0, cfg |-> KCfg(st, TRUE), xs |-> <<Exchange(FragProg, ProbeScript, 1)>>],
           [tag |-> "K-multipart-quote", cutX |-> 0, cfg |-> KCfg(st, FALSE), xs |-> <<Exchange(QuoteProg, ProbeScript, 1)>>],
+          [tag |-> "K-head-then-get", cutX |-> 0, cfg |-> KCfg(st, FALSE),
+           xs |-> <<Exchange(HeadProg, [ProbeScript EXCEPT !.head = TRUE], 1), Exchange(SimpleProgs[1], ProbeScript, 2)>>],
           [tag |-> "K-authority-fragment", cutX |-> 0, cfg |-> KCfg(st, FALSE), xs |-> <<Exchange(NoPathFragProg, ProbeScript, 1)>>],
           [tag |-> "K-nonorm-empty-path", cutX |-> 0, cfg |-> [KCfg(st, FALSE) EXCEPT !.noNormPath = TRUE],
            xs |-> <<Exchange([NoPathSlashQueryProg EXCEPT !.query = "x=1", !.url = "http://example.com?x=1"], ProbeScript, 1)>>],
           [tag |-> "K-authority-query-slash", cutX |-> 0, cfg |-> KCfg(st, FALSE), xs |-> <<Exchange(NoPathSlashQueryProg, ProbeScript, 1)>>] >>])
 
 AllCases == IF Mode \in {"cuts", "cutsbig"} THEN CasesC ELSE Flatten([c \in 1 .. 8 |-> CasesA(c - 1)]) \o CasesB \o CasesK
-Numbered == [q \in 1 .. Len(AllCases) |-> [id |-> q, tag |-> AllCases[q].tag, cutX |-> AllCases[q].cutX, cfg |-> AllCases[q].cfg, xs |-> AllCases[q].xs]]
+\* One Response object serves a whole sequence, handed to Do as it is -- except that after a HEAD exchange it is Reset()
+\* first (known finding C11-skipbody-sticky: the SkipBody flag the client sets for HEAD survives into the next Do; its
+\* minimal case K-head-then-get keeps the object as it is).
+HeadThenMore(c) == \E x \in 1 .. Len(c.xs) - 1 : c.xs[x].prog.method = "HEAD"
+CfgOf(c) == IF c.tag # "K-head-then-get" /\ HeadThenMore(c) THEN [c.cfg EXCEPT !.reuseResp = FALSE] ELSE c.cfg
+Numbered == [q \in 1 .. Len(AllCases) |-> [id |-> q, tag |-> AllCases[q].tag, cutX |-> AllCases[q].cutX, cfg |-> CfgOf(AllCases[q]), xs |-> AllCases[q].xs]]
 
 ASSUME \A q \in 1 .. Len(AllCases) : \A x \in DOMAIN AllCases[q].xs :
           WellFormedResp(AllCases[q].xs[x].script) /\ WellFormedProg(AllCases[q].xs[x].prog)
